@@ -19,7 +19,7 @@ def server_stubs(pipe=True):
      ("(*github.com/gorilla/websocket.Upgrader).Upgrade", "vpWsUpgrade"), ("(*github.com/gorilla/websocket.Conn).ReadMessage", "vpWsReadMessage"),
      ("(*github.com/gorilla/websocket.Conn).WriteMessage", "vpWsWriteMessage"), ("(*github.com/gorilla/websocket.Conn).UnderlyingConn", "vpWsUnderlyingConn"),
      ("(*github.com/gorilla/websocket.Conn).LocalAddr", "vpWsLocalAddr"), ("(*github.com/gorilla/websocket.Conn).RemoteAddr", "vpWsRemoteAddr"),
-     ("(*github.com/gorilla/websocket.Conn).Close", "vpWsClose"),
+     ("(*github.com/gorilla/websocket.Conn).Close", "vpWsClose"), ("(*github.com/gorilla/websocket.Conn).SetReadLimit", "vpWsSetReadLimit"),
      ("github.com/bokysan/socketace/v2/internal/streams/dns.NewNetConnectionServerCommunicator", "vpNewNetConnectionServerCommunicator"),
      ("crypto/sha256.New", "vpSha256New"), ("golang.org/x/crypto/pbkdf2.Key", "vpPbkdf2Key"), ("github.com/xtaci/kcp-go/v5.NewAESBlockCrypt", "vpNewAESBlockCrypt"),
      ("(net/http.Header).Write", "vpHeaderWrite"),
